@@ -240,6 +240,7 @@ def compare(src, out):
         B = expref.split_schemas(expref.norm_tokens(out))
     except Exception as e:
         return [('harness/normal-form', repr(e))]
+    aliases = {m.group(2).lower(): m.group(1).lower() for m in re.finditer(r'(?i)\b([a-z][a-z0-9_]*)\s+AS\s+([a-z][a-z0-9_]*)', src if isinstance(src, str) else src.decode('latin1'))}
     if sorted(A) != sorted(B):
         return [('schemas-differ', 'source declares schemas %s, output %s' % (sorted(A), sorted(B)))]
     for sn in A:
@@ -277,6 +278,9 @@ def compare(src, out):
                     cls = 'parentheses:' + '_'.join(ctx[:3])
                 if x == ('op', '{') and y != ('op', '{'):
                     cls = 'interval-desugared'
+                if x and y and x[0] == y[0] == 'id' and aliases.get(str(x[1]).lower()) == str(y[1]).lower():
+                    cls = 'interfaced-alias->original-name'      # 'USE FROM s (y AS x)': the printer names the item by the name it has in s
+                    cons = 'reference'
                 res.append(('not-equivalent/%s/%s' % (cons, cls), '%s %s: source ...%s  |  output ...%s' % (k[0], k[1], expref.render(ca[max(0, p - 6):p + 6], 110), expref.render(cb[max(0, p - 6):p + 6], 110))))
     return res
 
@@ -364,6 +368,8 @@ def main():
         chk.cls('%s/%s' % (fam_name if not name.startswith('g_') else name, 'flags' if len(a) > 2 else 'length'))
         case = {'name': name, 'args': a, 'text': text if len(text) < 20000 else None, 'path': None}
         bad = False
+        origs = set(m.group(1).lower() for m in re.finditer(r'(?i)\b([a-z][a-z0-9_]*)\s+AS\s+[a-z]', text)) if len(text) < 200000 else set()
+        alias_lost = lambda msg: bool(origs) and any(re.search(r'(?i)undefined (type|object) %s\b' % re.escape(o), msg or '') for o in origs)
         if r.get('fail') is not None:
             chk.outcome('print-failed')
             chk.violation('%s/print-failed/%s/rc=%s' % (PID, name if len(name) < 30 else fam_name, r['rc']), 'exppp %s fails on %s: %s' % (' '.join(a), name, r['fail'][-150:]), case)
@@ -371,14 +377,14 @@ def main():
         if not r['accepted']:
             bad = True
             chk.outcome('output-rejected')
-            chk.violation('%s/output-rejected/%s/%s' % (PID, name if name.startswith('g_') else fam_name, classify_reject(r['first_error'])), 'the output of exppp %s for %s is rejected by check-express: %s' % (' '.join(a), name, r['first_error'][-160:]), case)
+            chk.violation(('%s/output-rejected/interfaced-alias->original-name' % PID) if alias_lost(r['first_error']) else '%s/output-rejected/%s/%s' % (PID, name if name.startswith('g_') else fam_name, classify_reject(r['first_error'])), 'the output of exppp %s for %s is rejected by check-express: %s' % (' '.join(a), name, r['first_error'][-160:]), case)
         for kp, what in r['diffs']:
             bad = True
             chk.outcome(kp.split('/')[0])
             chk.violation('%s/%s%s' % (PID, kp, ('/' + name) if name.startswith('g_') and kp.startswith('not-equivalent') else ''), '%s (exppp %s): %s' % (name, ' '.join(a), what), case)
         if r.get('reprint_fail'):
             bad = True
-            chk.violation('%s/reprint-failed/%s' % (PID, name if name.startswith('g_') else fam_name), 'printing the output of %s again fails: %s' % (name, r['reprint_fail']), case)
+            chk.violation(('%s/reprint-failed/interfaced-alias->original-name' % PID) if alias_lost(r['reprint_fail']) else '%s/reprint-failed/%s' % (PID, name if name.startswith('g_') else fam_name), 'printing the output of %s again fails: %s' % (name, r['reprint_fail']), case)
         if r.get('reprint_diff'):
             bad = True
             d = r['reprint_diff']
